@@ -1612,6 +1612,153 @@ def identity_refs(program, log):
                        'as weakref.ref')
 
 
+def any_all_loops(program, log):
+    """`x = any([E for v in IT])` - a LIST is built first, so E runs for every
+    v - reads `x = False; for v in IT: if E: x = True`; with a generator
+    expression any() stops at the first true E: the loop gets a `break`.
+    (`all` likewise, with the test negated.)  Only when E has a call in it -
+    otherwise there is nothing to see."""
+    import copy as _copy
+
+    def rewrite(body, f):
+        i = 0
+        while i < len(body):
+            st = body[i]
+            for fld in ('body', 'orelse', 'finalbody'):
+                sub_ = getattr(st, fld, None)
+                if isinstance(sub_, list) and sub_ and isinstance(
+                        sub_[0], ast.stmt):
+                    rewrite(sub_, f)
+            for h in getattr(st, 'handlers', []) or []:
+                rewrite(h.body, f)
+            if isinstance(st, ast.Assign) and len(st.targets) == 1 \
+                    and isinstance(st.targets[0], ast.Name) \
+                    and isinstance(st.value, ast.Call) \
+                    and dotted(st.value.func) in ('any', 'all') \
+                    and len(st.value.args) == 1 and not st.value.keywords \
+                    and isinstance(st.value.args[0], (ast.ListComp,
+                                                      ast.GeneratorExp)) \
+                    and len(st.value.args[0].generators) == 1 \
+                    and not st.value.args[0].generators[0].ifs \
+                    and any(isinstance(x, ast.Call)
+                            for x in ast.walk(st.value.args[0].elt)):
+                comp = st.value.args[0]
+                g = comp.generators[0]
+                x = st.targets[0].id
+                is_any = dotted(st.value.func) == 'any'
+                test = comp.elt if is_any else ast.UnaryOp(ast.Not(),
+                                                           comp.elt)
+                hit = [ast.Assign([ast.Name(x, ast.Store())],
+                                  ast.Constant(is_any))]
+                if isinstance(comp, ast.GeneratorExp):
+                    hit.append(ast.Break())
+                new = [ast.Assign([ast.Name(x, ast.Store())],
+                                  ast.Constant(not is_any)),
+                       ast.For(target=g.target, iter=g.iter,
+                               body=[ast.If(test, hit, [])], orelse=[])]
+                for n_ in new:
+                    ast.copy_location(n_, st)
+                    for y in ast.walk(n_):
+                        if not hasattr(y, 'lineno'):
+                            ast.copy_location(y, st)
+                    ast.fix_missing_locations(n_)
+                body[i:i + 1] = new
+                log.append(f'{f.where}: `{x} = {dotted(st.value.func)}(<'
+                           f'{"list" if isinstance(comp, ast.ListComp) else "generator"}'
+                           ' comprehension with calls>)` written as a loop')
+                i += 2
+                continue
+            i += 1
+    for f in program.all_functions():
+        rewrite(f.node.body, f)
+
+
+def chainmap_first_hit(program, log):
+    """A hand-written ChainMap lookup
+
+        for layer in E.maps:
+            h = layer.get(k)
+            if h is not None: return F(h)
+
+    (E an attribute that only ever receives ChainMap(...)) reads `if k in E:
+    return F(E[k])`: the first layer that holds k is the one ChainMap's own
+    lookup answers from.  Rests on stored values not being None - a None
+    value makes both spellings fail (TypeError / KeyError).  A truthiness
+    test (`if h:`) is a different thing and is left alone."""
+    import copy as _copy
+    chain_attrs = set()
+    for f in program.all_functions():
+        for n in ast.walk(f.node):
+            if isinstance(n, (ast.Assign, ast.AnnAssign)) and isinstance(
+                    n.value, ast.Call) and (dotted(n.value.func) or ''
+                                            ).split('.')[-1] == 'ChainMap':
+                for t in (n.targets if isinstance(n, ast.Assign)
+                          else [n.target]):
+                    if isinstance(t, ast.Attribute):
+                        chain_attrs.add(t.attr)
+
+    def rewrite(body, f):
+        for i, st in enumerate(list(body)):
+            for fld in ('body', 'orelse', 'finalbody'):
+                sub_ = getattr(st, fld, None)
+                if isinstance(sub_, list) and sub_ and isinstance(
+                        sub_[0], ast.stmt):
+                    rewrite(sub_, f)
+            for h in getattr(st, 'handlers', []) or []:
+                rewrite(h.body, f)
+            if not (isinstance(st, ast.For) and not st.orelse
+                    and isinstance(st.target, ast.Name)
+                    and isinstance(st.iter, ast.Attribute)
+                    and st.iter.attr == 'maps'
+                    and isinstance(st.iter.value, ast.Attribute)
+                    and st.iter.value.attr in chain_attrs
+                    and len(st.body) == 2):
+                continue
+            a, c = st.body
+            L = st.target.id
+            if not (isinstance(a, ast.Assign) and len(a.targets) == 1
+                    and isinstance(a.targets[0], ast.Name)
+                    and isinstance(a.value, ast.Call)
+                    and isinstance(a.value.func, ast.Attribute)
+                    and a.value.func.attr == 'get'
+                    and isinstance(a.value.func.value, ast.Name)
+                    and a.value.func.value.id == L
+                    and len(a.value.args) == 1 and not a.value.keywords):
+                continue
+            hname = a.targets[0].id
+            if not (isinstance(c, ast.If) and not c.orelse
+                    and len(c.body) == 1 and isinstance(c.body[0], ast.Return)
+                    and norm(c.test) == f'{hname} is not None'):
+                continue
+            uses = [n for n in ast.walk(f.node) if isinstance(n, ast.Name)
+                    and n.id in (hname, L) and not any(
+                        n is y for y in ast.walk(st))]
+            if uses:
+                continue
+            E, k = st.iter.value, a.value.args[0]
+
+            class R(ast.NodeTransformer):
+                def visit_Name(self, n):
+                    if n.id == hname and isinstance(n.ctx, ast.Load):
+                        return ast.copy_location(ast.Subscript(
+                            _copy.deepcopy(E), _copy.deepcopy(k),
+                            ast.Load()), n)
+                    return n
+            ret = R().visit(_copy.deepcopy(c.body[0]))
+            new = ast.If(ast.Compare(_copy.deepcopy(k), [ast.In()],
+                                     [_copy.deepcopy(E)]), [ret], [])
+            ast.copy_location(new, st)
+            for y in ast.walk(new):
+                if not hasattr(y, 'lineno'):
+                    ast.copy_location(y, st)
+            ast.fix_missing_locations(new)
+            body[body.index(st)] = new
+            log.append(f'{f.where}: first-hit walk over the layers of '
+                       f'{norm(E)} read as a ChainMap lookup')
+    for f in program.all_functions():
+        rewrite(f.node.body, f)
+
+
 def rotate_idiom(program, log):
     """`q.append(q.popleft())` on a deque known to be non-empty (an earlier
     statement of the same block returns when it is empty / has at most one
@@ -2155,7 +2302,9 @@ def run(program):
     for step in (identity_refs, explicit_properties, walrus_out,
                  inline_simple_decorators,
                  typing_noops, relpath_abspath, sentinel_lookups, setdefault_fresh, mirror_locals,
-                 rotate_idiom, drain_loops, stat_probe, split_parallel_assign,
+                 rotate_idiom, drain_loops, stat_probe, any_all_loops,
+                 chainmap_first_hit,
+                 split_parallel_assign,
                  inline_aliases, context_managers_to_try, rpartition_keys,
                  slices_of_islice,
                  pop_last_idiom,
